@@ -17,7 +17,8 @@ BATCH = 1000
 SHRINK_BUDGET = 250
 EXTRA_MODULES = ("Sentinel.Lemmas.Pipeline", "Sentinel.Lemmas.PipelineHist", "Sentinel.Lemmas.PipelineCb", "Sentinel.Lemmas.PipelineCouple",
                  "Sentinel.Lemmas.PipelineShape", "Sentinel.Lemmas.PipelineFlow", "Sentinel.Lemmas.PipelineFlowHist",
-                 "Sentinel.Lemmas.PipelineHotHist", "Sentinel.Lemmas.PipelineSysHist")
+                 "Sentinel.Lemmas.PipelineHotHist", "Sentinel.Lemmas.PipelineSysHist",
+                 "Sentinel.Lemmas.PipelineIdle")
 RULE = ("per case: `clock T0` (T0 = 1.9e12 + offsets on / around bucket and array-cycle boundaries), 2-4 resources, every resource "
         "gets 2-4 of the rule kinds {flow Direct/Reject (thresholds 0..5, fractional, NaN/Inf/negative slice; statistic intervals giving "
         "default view, derived view, own window; 20% associated rules on a view), isolation (thresholds 1..5, 0 = invalid; 1-2 rules), "
